@@ -367,12 +367,23 @@ class GitStore(Store):
             except NotImplementedError:
                 # This file type doesn't support UIDs
                 uid = None
+            try:
+                (unused_etag, old_uid) = self._fname_to_uid[name]
+            except KeyError:
+                pass
+            else:
+                # The file changed; forget the UID it used to have.
+                if (
+                    old_uid is not None
+                    and self._uid_to_fname.get(old_uid, (None,))[0] == name
+                ):
+                    del self._uid_to_fname[old_uid]
             self._fname_to_uid[name] = (etag, uid)
             if uid is not None:
                 self._uid_to_fname[uid] = (name, etag)
         for name in removed:
             (unused_etag, uid) = self._fname_to_uid[name]
-            if uid is not None:
+            if uid is not None and self._uid_to_fname.get(uid, (None,))[0] == name:
                 del self._uid_to_fname[uid]
             del self._fname_to_uid[name]
 
